@@ -10,6 +10,7 @@ R16.12 a process-wide "already registered" record identifies classes by the obje
 R16.9  no value computed from a class is memoised on that class and read back through an inheriting lookup (getattr/hasattr/attribute)
 R16.8  the raw-dict fallback of union decoding applies to dict[str, Any] only (guard evaluated over {str, other} x {Any, other})
 R3.3/R3.4/R3.5 hook pairs inverse, rename plumbing, recursive registration (shared with C03)
+R16.13 both dataclass hook factories resolve the field types (get_type_hints with extras, written back) before cattrs sees the class
 """
 from __future__ import annotations
 
@@ -28,6 +29,7 @@ def run(repo: Repo, rep: Report, tier: str) -> None:
     cv.rule_rename_plumbing(repo, rep, "R16.6")
     cv.rule_unlisted_field_keeps_its_name(repo, rep, "R16.11")
     cv.rule_recursive_registration(repo, rep, "R16.7")
+    cv.rule_field_types_resolved(repo, rep, "R16.13")
     rule_class_memo(repo, rep, "R16.9")
     rule_strip_descends(repo, rep, "R16.10")
     rule_memo_by_identity(repo, rep, "R16.12")
